@@ -162,4 +162,27 @@ def holdsF (lateFlush : Bool) (o : FObs) : Bool :=
   o.cnt == o.del && (if lateFlush then decide (o.statS ≤ o.del) else o.statS == o.del) &&
   o.statR == 0 && o.leak == 0
 
+/-! ### Start ‖ Close: after every call returned and pending I/O was unblocked, either the tunnel
+is Connected and nothing was closed, or it is Closed, the close sequence ran exactly once, nothing
+that Start spawned remains, and if Start reported success the tunnel's context is cancelled and
+the dispose latch is closed. -/
+
+structure UObs where
+  state : Nat
+  closes : Nat
+  startOk : Bool
+  live : Nat              -- goroutines spawned by Start that are still alive
+  ctxDone : Bool
+  isClosed : Bool
+  deriving DecidableEq, Repr
+
+def uObs (c : Cfg UShared ULocal) : UObs :=
+  { state := c.sh.state, closes := c.sh.closes, startOk := c.sh.startRes == 1,
+    live := if c.sh.state == 3 && c.sh.spawned && !c.sh.ctxCancelled then 2 else 0,
+    ctxDone := c.sh.ctxBound && c.sh.ctxCancelled, isClosed := c.sh.disposed }
+
+def holdsU (o : UObs) : Bool :=
+  (o.state == 1 && o.closes == 0 && o.startOk) ||
+  (o.state == 3 && o.closes == 1 && o.live == 0 && (!o.startOk || (o.ctxDone && o.isClosed)))
+
 end Tunnox.C16
